@@ -96,8 +96,8 @@ def run(ctx):
         "concurrency: atomic.Load/Store/Add are the atomic steps of the LTS (sequential consistency)",
     ]
     ctx.prove()
-    hv.build_harness()
-    hv.build_modelrun()
+    hv.build_harness("c20")
+    hv.build_modelrun("c20")
     cases = gen_cases(ctx)
     rc, obs, err = hv.run_harness("c20", cases)
     byid = {o["id"]: o for o in obs}
@@ -172,7 +172,7 @@ def run(ctx):
 
 def replay(ctx, path):
     r = json.load(open(path))
-    hv.build_harness()
+    hv.build_harness("c20")
     rc, obs, err = hv.run_harness("c20", [r["case"]])
     print(json.dumps(obs))
     why = property_oracle(r["case"], obs[0]["calls"]) if obs else "crash"
